@@ -166,6 +166,11 @@ pub struct RunCfg {
     /// original is dropped first); a clone of a built graph is a built graph.
     #[serde(default)]
     pub on_clone: bool,
+    /// Streams only: the `FnRef`s of these functions are dropped by the unwinding of
+    /// a panic that the consumer contains (`catch_unwind`, a worker that dies) instead
+    /// of an ordinary drop.
+    #[serde(default)]
+    pub unwind: Vec<usize>,
 }
 
 impl RunCfg {
@@ -224,7 +229,7 @@ impl Profile {
             pct_failing: 50,
             limits: true,
             force_limit: false,
-            dup_access: false,
+            dup_access: true,
             root_path_cap: None,
             aborts: false,
             coop: false,
@@ -506,6 +511,12 @@ pub fn decode_cfg(t: &mut Tape, p: &Profile, n: usize, intr: bool) -> RunCfg {
         pre_interrupted = 0;
     }
     let on_clone = t.chance(1, 10);
+    let unwind: Vec<usize> = if api.shape.is_stream() && t.chance(1, 10) {
+        let all = t.chance(1, 3);
+        (0..n).filter(|_| all || t.chance(1, 3)).collect()
+    } else {
+        vec![]
+    };
     if !api.with {
         rev = false;
         strat = Strat::NonInterruptible;
@@ -529,5 +540,6 @@ pub fn decode_cfg(t: &mut Tape, p: &Profile, n: usize, intr: bool) -> RunCfg {
         drop_sender,
         pre_interrupted,
         on_clone,
+        unwind,
     }
 }
